@@ -12,7 +12,7 @@ struct C06 : Harness {
         bool uk = unkeyed;
         return rc::gen::exec([uk]() {
             HistGen g;
-            g.o.invalid = true; g.o.midstream = true; g.o.lifecycle = true; g.o.unkeyed_data = uk;
+            g.o.invalid = true; g.o.midstream = true; g.o.lifecycle = true; g.o.unkeyed_data = uk; g.o.loose_tweak = true;
             int kind = *rc::gen::element((int)C128, (int)C128, (int)C64, (int)CM, (int)P128, (int)P64, (int)PM);
             g.add_slot(kind, 256, *rc::gen::element(0, 0, 0xFF, 0xA5, 0x01));
             int n = *irange(3, 40);
